@@ -26,6 +26,12 @@ Reading guide (property text → theorem)
 * `p_uthread_local_free` (repaired: deletes the native key, frees its block) → `local_free_releases_native_key`,
   `native_release_once`; source-shape obligations of the F10 repair → `proxy_checks_its_slot`.
 * creation handshake → `fields_written_before_start`.
+* failing native calls (gap round, coverage/threads.md): a creation whose `pthread_attr_init` / `pthread_attr_setdetachstate` /
+  `pthread_create` fails → `create_fail_releases_once` (NULL, no thread, the block released exactly once inside the call),
+  `freed_handle_not_permitted`; `pthread_join` reporting an error → `join_fail_code` (the call does not wait: the code recorded so
+  far); the lazy `pthread_key_create` failing → `tls_fail_changes_nothing` (set / replace / get), `current_fail_releases_once`
+  (`p_uthread_current`: NULL, the fresh block released once).  `free_only_by_unref` names these two frees as the only ones that are
+  not an unref.
 * the independent executable reference `PV/Spec/UThread.lean` (the spec column of the differential run) answers
   exactly as the machine does → `spec_refinement_step`, `spec_refinement`, `spec_refinement_disciplined`.
 * references attributed to the threads that hold them (`PV.Model.UThreadOwners`) → `user_refs_are_held`,
@@ -59,13 +65,18 @@ theorem freed_iff_no_holder {s : State} (hr : DReach s) (h : Nat) (hw : (s.hdl h
     | true => rfl
     | false => have := hi.hL h hw hfr; omega
 
-/-- only `unref` — explicit, or the library key's destructor at thread end — frees -/
+/-- only `unref` — explicit, or the library key's destructor at thread end — frees a handle anybody ever held; the only
+    other frees are the ones inside a creation / a `p_uthread_current` that fails (`create_fail_releases_once`,
+    `current_fail_releases_once`: a block nobody was given) -/
 theorem free_only_by_unref {s s' : State} {e : Ev} (hs : step s e = .ok s') (hne : s'.freeLog ≠ s.freeLog) :
-    (∃ a h, e = .unref a h) ∨ (∃ t, e = .threadEnd t) := by
+    (∃ a h, e = .unref a h) ∨ (∃ t, e = .threadEnd t) ∨ (∃ a, e = .createFail a) ∨ (∃ t, e = .currentFail t) := by
   apply Classical.byContradiction
   intro hc
   have hc' := not_or.mp hc
-  exact hne (freeLog_frame hs (fun a h e' => hc'.1 ⟨a, h, e'⟩) (fun t e' => hc'.2 ⟨t, e'⟩))
+  have hc'' := not_or.mp hc'.2
+  have hc3 := not_or.mp hc''.2
+  exact hne (freeLog_frame hs (fun a h e' => hc'.1 ⟨a, h, e'⟩) (fun t e' => hc''.1 ⟨t, e'⟩) (fun a e' => hc3.1 ⟨a, e'⟩)
+    (fun t e' => hc3.2 ⟨t, e'⟩))
 
 /-- an explicit `unref` frees the handle iff it drops the last reference (the count it sees is 1 = the
     number of holders), and then it frees exactly that handle -/
@@ -126,6 +137,94 @@ theorem no_use_after_free_run : ∀ {es : List Ev} {s : State}, DReach s → Dis
     split at hs
     · rename_i x hx; injection hs with hs; subst hs; exact no_use_after_free hr hd.1 h hx
     · rename_i s' hx; exact no_use_after_free_run (.step e hr hd.1 hx) (hd.2 s' hx) h hs
+
+/-! ## failing native calls: creation that fails, `pthread_join` that reports an error -/
+
+/-- `p_uthread_create*` whose native part fails (`pthread_attr_init`, `pthread_attr_setdetachstate` or `pthread_create`
+    returns an error) gives NULL and leaves nothing behind: the block the call allocated (it takes the next handle id)
+    is released exactly once inside the call — it was not in the free log before, it is its last entry afterwards —, it
+    carries no reference of anybody, no thread came into being, the creation spinlock is free again, and no other
+    handle, thread record, TLS cell, key or log changed -/
+theorem create_fail_releases_once {s s' : State} {a : Nat} (hr : Reach s) (hs : step s (.createFail a) = .ok s') :
+    s'.freeLog = s.freeLog ++ [s.nH] ∧ s.nH ∉ s.freeLog ∧ s'.freeLog.Nodup ∧
+    (s'.hdl s.nH).freed = true ∧ holders (s'.hdl s.nH) = 0 ∧ (s'.hdl s.nH).ours = false ∧
+    s'.nH = s.nH + 1 ∧ s'.nT = s.nT ∧ s'.thr = s.thr ∧ s.spin = none ∧ s'.spin = none ∧
+    (∀ h, h ≠ s.nH → s'.hdl h = s.hdl h) ∧
+    s'.tls = s.tls ∧ s'.key = s.key ∧ s'.nkey = s.nkey ∧ s'.dtorLog = s.dtorLog ∧ s'.joinLog = s.joinLog := by
+  have hr' : Reach s' := .step _ hr hs
+  obtain ⟨_, hspin, rfl⟩ := createFail_ok hs
+  have hnot : s.nH ∉ s.freeLog := by
+    intro hm
+    have := (hr.inv.2.fL s.nH).mp hm
+    rw [hr.inv.2.hB s.nH (Nat.le_refl _)] at this; cases this
+  refine ⟨rfl, hnot, hr'.inv.2.fN, by simp, by simp [holders], by simp, rfl, rfl, rfl, hspin, hspin, ?_, rfl, rfl, rfl, rfl, rfl⟩
+  intro h hne; simp only; rw [upd_ne _ _ hne]
+
+/-- a handle that has been released — in particular the block of a failed creation — is named by no permitted event:
+    along disciplined histories nobody holds a reference to it, so `ref`, `unref`, `join` of it are outside the discipline -/
+theorem freed_handle_not_permitted {s : State} (hr : DReach s) {h : Nat} (hf : (s.hdl h).freed = true) (a : Nat) :
+    ¬ Permitted s (.ref a h) ∧ ¬ Permitted s (.unref a h) ∧ ¬ Permitted s (.join a h) ∧ ¬ Permitted s (.joinFail a h) := by
+  obtain ⟨_, _, hfi⟩ := hr.inv
+  have := hfi h hf
+  refine ⟨?_, ?_, ?_, ?_⟩ <;> simp [Permitted, this.1, this.2]
+
+/-- `p_uthread_join` on a joinable handle whose `pthread_join` reports an error (`p_uthread_wait_internal` only logs it)
+    does not wait: it yields what `ret_code` holds at that moment — 0 as long as the target has not left its function,
+    the argument of its `p_uthread_exit` (0 for a plain return) once it has —, records no native join (a later
+    `p_uthread_join` is still possible) and changes nothing else -/
+theorem join_fail_code {s s' : State} {a h : Nat} (hr : Reach s) (hs : step s (.joinFail a h) = .ok s') :
+    s'.joinLog = s.joinLog ++ [(a, h, (s.hdl h).retCode)] ∧
+    (s.hdl h).joinable = true ∧ (s.hdl h).ours = true ∧ (s.thr (s.hdl h).thread).handle = some h ∧
+    (((s.thr (s.hdl h).thread).phase = .created ∨ (s.thr (s.hdl h).thread).phase = .running) → (s.hdl h).retCode = 0) ∧
+    (((s.thr (s.hdl h).thread).phase = .finished ∨ (s.thr (s.hdl h).thread).phase = .ended) →
+      (s.hdl h).retCode = ((s.thr (s.hdl h).thread).exitArg).getD 0) ∧
+    s'.hdl = s.hdl ∧ s'.thr = s.thr ∧ s'.freeLog = s.freeLog ∧ s'.tls = s.tls ∧ s'.dtorLog = s.dtorLog := by
+  obtain ⟨_, hi⟩ := hr.inv
+  obtain ⟨_, _, hw, _, hj, rfl⟩ := joinFail_ok hs
+  have ho : (s.hdl h).ours = true := by
+    cases ho : (s.hdl h).ours with
+    | true => rfl
+    | false => rw [hi.hJ h hw ho] at hj; cases hj
+  have hlink := hi.hO h ho
+  have hjc := hi.jC _ h hlink
+  exact ⟨rfl, hj, ho, hlink, fun hp => (hjc.1 hp).1, hjc.2, rfl, rfl, rfl, rfl, rfl⟩
+
+/-- `p_uthread_current` of a thread without a stored handle, when the fresh handle cannot be stored (the lazy creation of
+    the library key's native key fails): NULL, and the `PUThreadBase` block allocated meanwhile is released exactly once
+    inside the call; the thread still has no handle, nothing else changed -/
+theorem current_fail_releases_once {s s' : State} {t : Nat} (hr : Reach s) (hs : step s (.currentFail t) = .ok s') :
+    s'.freeLog = s.freeLog ++ [s.nH] ∧ s.nH ∉ s.freeLog ∧ s'.freeLog.Nodup ∧
+    (s'.hdl s.nH).freed = true ∧ holders (s'.hdl s.nH) = 0 ∧ valueOf s t 0 = 0 ∧ valueOf s' t 0 = 0 ∧
+    s'.nH = s.nH + 1 ∧ s'.thr = s.thr ∧ s'.spin = s.spin ∧ (∀ h, h ≠ s.nH → s'.hdl h = s.hdl h) ∧
+    s'.tls = s.tls ∧ s'.key = s.key ∧ s'.nkey = s.nkey ∧ s'.dtorLog = s.dtorLog ∧ s'.curLog = s.curLog := by
+  have hr' : Reach s' := .step _ hr hs
+  have hv : valueOf s t 0 = 0 := by
+    simp only [step, currentFail] at hs
+    split at hs
+    · cases hs
+    · split at hs
+      · cases hs
+      · split at hs
+        · cases hs
+        · rename_i hv; simpa using hv
+  obtain ⟨_, _, rfl⟩ := currentFail_ok hs
+  have hnot : s.nH ∉ s.freeLog := by
+    intro hm
+    have := (hr.inv.2.fL s.nH).mp hm
+    rw [hr.inv.2.hB s.nH (Nat.le_refl _)] at this; cases this
+  refine ⟨rfl, hnot, hr'.inv.2.fN, by simp, by simp [holders], hv, hv, rfl, rfl, rfl, ?_, rfl, rfl, rfl, rfl, rfl⟩
+  intro h hne; simp only; rw [upd_ne _ _ hne]
+
+/-- a TLS call on a key without a native key whose `pthread_key_create` fails is a no-op: `set` / `replace` store nothing
+    and call no notifier, `get` yields NULL (the cell is NULL: nothing was ever stored under that key); no native key
+    exists afterwards, nothing is published (the next call tries again), no block is left -/
+theorem tls_fail_changes_nothing {s s' : State} {t k : Nat} {g : Bool} (hs : step s (.tlsFail t k g) = .ok s') :
+    (s.key k).published = none ∧ (∀ t', valueOf s t' k = 0) ∧
+    s'.getLog = s.getLog ++ (if g then [(t, k, 0)] else []) ∧
+    s'.dtorLog = s.dtorLog ∧ s'.tls = s.tls ∧ s'.key = s.key ∧ s'.nkey = s.nkey ∧ s'.nN = s.nN ∧
+    s'.blockFreeLog = s.blockFreeLog ∧ s'.keyDelLog = s.keyDelLog ∧ s'.hdl = s.hdl ∧ s'.thr = s.thr ∧ s'.freeLog = s.freeLog := by
+  obtain ⟨_, _, _, _, hp, rfl⟩ := tlsFail_ok hs
+  exact ⟨hp, fun t' => by simp [valueOf, hp], rfl, rfl, rfl, rfl, rfl, rfl, rfl, rfl, rfl, rfl, rfl⟩
 
 /-! ## join and exit code -/
 
@@ -591,6 +690,47 @@ example : (match run init [.createBegin 0 true false, .keyCreate 1 0, .keyCas 1 
     | .ok s => step s (.start 1) | .error e => .error e) = .error .notEnabled := by rfl
 example : (match run init [.createBegin 0 true false, .keyCreate 1 0, .keyCas 1 0, .createEnd 0, .start 1] with
     | .ok s => some ((s.thr 1).phase, (s.hdl 0).refCount) | .error _ => none) = some (.running, 2) := by rfl
+
+/-- creations that fail: handle ids 0 and 2 are the blocks of the two failed calls (released inside the call, in that
+    order, once each), handle 1 is the thread made in between; nothing of the failed calls is alive, no thread 2 exists,
+    the history obeys the discipline, and the reference answers the same -/
+def demoFail : List Ev := [
+  .createFail 0, .createBegin 0 true false, .createEnd 0, .createFail 0,
+  .keyCreate 1 0, .keyCas 1 0, .start 1, .joinFail 0 1, .exit 1 7, .joinFail 0 1, .threadEnd 1, .join 0 1, .unref 0 1 ]
+
+example : (match run init demoFail with
+    | .ok s => some (s.freeLog, s.joinLog, s.nH, s.nT, (s.hdl 0).freed, (s.hdl 2).freed, s.spin.isNone)
+    | .error _ => none) = some ([0, 2, 1], [(0, 1, 0), (0, 1, 7), (0, 1, 7)], 3, 2, true, true, true) := by rfl
+example : checkDisc init demoFail = true := by rfl
+example : checkDiscT ginit demoFail = true := by rfl
+example : PV.UThreadSpec.obsRun init demoFail = PV.UThreadSpec.specRun {} demoFail := by rfl
+/-- the block of a failed creation is dangling for everybody: naming it is a fault of the caller, and outside the discipline -/
+example : (match run init [.createFail 0] with
+    | .ok s => (step s (.ref 0 0), decide (Permitted s (.ref 0 0)), decide (Permitted s (.unref 0 0)))
+    | .error e => (.error e, true, true)) = (.error (.useAfterFree 0), false, false) := by rfl
+/-- a creation is not possible (also not a failing one) while another creator is inside the critical section -/
+example : (match run init [.spawn, .createBegin 0 true false] with
+    | .ok s => step s (.createFail 1) | .error e => .error e) = .error .notEnabled := by rfl
+/-- the failing join is an event only for joinable handles (on a detached one the native call is not made) -/
+example : (match run init [.createBegin 0 false false, .createEnd 0] with
+    | .ok s => step s (.joinFail 0 0) | .error e => .error e) = .error .notEnabled := by rfl
+
+/-- a key whose native key cannot be made: `set 5` stores nothing, `get` reads NULL, `replace` calls no notifier; once the
+    creation works the key behaves as new.  `p_uthread_current` of the initial thread failing twice: handles 0 and 1 are
+    the two released blocks, the third call yields handle 2 -/
+example : (match run init [.localNew 0 true, .tlsFail 0 1 false, .tlsFail 0 1 true, .tlsFail 0 1 false, .keyCreate 0 1, .keyCas 0 1,
+      .getLocal 0 1, .setLocal 0 1 5, .replaceLocal 0 1 6, .currentFail 0, .keyCreate 0 0, .keyCas 0 0, .currentFail 0, .current 0] with
+    | .ok s => some (s.getLog, s.dtorLog, s.freeLog, s.curLog, s.nN)
+    | .error _ => none) = some ([(0, 1, 0), (0, 1, 0)], [(0, 1, 5)], [0, 1], [(0, 2)], 2) := by rfl
+example : PV.UThreadSpec.obsRun init [.localNew 0 true, .tlsFail 0 1 false, .tlsFail 0 1 true, .currentFail 0, .keyCreate 0 0, .keyCas 0 0,
+      .currentFail 0, .current 0] =
+    PV.UThreadSpec.specRun {} [.localNew 0 true, .tlsFail 0 1 false, .tlsFail 0 1 true, .currentFail 0, .keyCreate 0 0, .keyCas 0 0,
+      .currentFail 0, .current 0] := by rfl
+/-- neither failure is an event once the key has a native key / the thread has its handle stored -/
+example : (match run init [.localNew 0 true, .keyCreate 0 1, .keyCas 0 1] with
+    | .ok s => step s (.tlsFail 0 1 true) | .error e => .error e) = .error .notEnabled := by rfl
+example : (match run init [.keyCreate 0 0, .keyCas 0 0, .current 0] with
+    | .ok s => step s (.currentFail 0) | .error e => .error e) = .error .notEnabled := by rfl
 
 /-- a key released with `p_uthread_local_free` while a thread still holds a value under it: the native key is
     deleted and its block freed once, and the thread's end calls no notifier for the dropped value 5 (only the
